@@ -161,6 +161,10 @@ class LibMixin:
             return [(st, VExc(fv.name, tuple(args), None, kw=tuple(kwargs.items())))]
         if isinstance(fv, VClass):
             return self.instantiate(st, fv, args, kwargs)
+        if isinstance(fv, VConst) and isinstance(fv.py, tuple) and fv.py and fv.py[0] == "partial":
+            kw = dict(fv.py[3])
+            kw.update(kwargs)
+            return self.call_value(st, fv.py[1], list(fv.py[2]) + list(args), kw, node)
         if isinstance(fv, (VU, VOpaque, VConst)):
             return self.opaque_call(st, f"call:{getattr(fv, 'desc', '') or 'value'}", [fv] + list(args) + list(kwargs.values()))
         raise Unsupported(f"call of {fv!r} at line {getattr(node, 'lineno', '?')}")
